@@ -12,7 +12,8 @@ asyncio loop (harness/aio/detloop.py) and the model (vm_compute) on the same sch
 schedules - and compares after every action: the state of every body, the number of unfinished tasks, the semaphore value and its
 waiters, the caller's result/exception, and the number of bodies running at the instant the helper returned.
 
-The code in /repo at the time of writing violates the property (see findings/C20.json): the oracle finds the failing schedules.
+The code in /repo before the fix (fixes/C20.diff, committed to /repo as 93fbe4943) violates the property (see findings/C20.json): the
+oracle finds the failing schedules there.
 """
 import glob
 import json
